@@ -208,6 +208,8 @@ def register(reg):  # noqa: F811
     _register_base(reg)
     register_update(reg)
     register_validation(reg)
+    register_run(reg)
+    register_run2(reg)
 
 
 ASSUMPTIONS = {"C01": ["link graph is well formed: every chain of inputs/adapters is finite and ends in an output (established by linking and Composition._validate_composition, decided in C19)",
@@ -300,6 +302,16 @@ def updates_plus(ctx, comp_e):
                z3.ForAll([i], Implies(And(0 <= i, i < u0.n), u1.at(i).e == u0.at(i).e)))
 
 
+def times_kept(ctx):
+    """state invariant of connected components (interface contract): time components always have a time and a
+    next time; an output that has published keeps a publication time, which never decreases"""
+    c, o = z3.Ints("tk_c tk_o")
+    t0, t1 = ctx.old.get(o, "_time"), ctx.get(o, "_time")
+    return And(
+        z3.ForAll([c], Implies(isa("ITimeComponent", c), And(Not(is_none(ctx.get(c, "$ctime"))), Not(is_none(ctx.get(c, "$next_time")))))),
+        z3.ForAll([o], Implies(Not(is_none(t0)), And(Not(is_none(t1)), strip_none(t1).e >= strip_none(t0).e))))
+
+
 def register_update(reg):
     from .base import RETENTION_FIELDS
 
@@ -311,7 +323,7 @@ def register_update(reg):
         return [(None, f) for f in SCHED_FIELDS + RETENTION_FIELDS] + [(WORLD, "$updates"), (WORLD, "$pull_log"), (WORLD, "$notify_log")]
 
     reg.add(Contract("iface:IComponent.update", params={}, note="method", verify=False, modifies=upd_mod,
-                     ensures=lambda ctx, r: updates_plus(ctx, ctx.self.e)))
+                     ensures=lambda ctx, r: And(updates_plus(ctx, ctx.self.e), times_kept(ctx))))
 
     def in_chain(ctx):
         ch = ctx.chain
@@ -364,7 +376,7 @@ def register_update(reg):
         )
         returned_comp = And(res > 0, isa("ITimeComponent", res), updates_plus(ctx, res),
                             READY(res, next_t(c0, res)), ONCHAIN(comp, tt, res))
-        return If(none, returned_none, returned_comp)
+        return And(If(none, returned_none, returned_comp), times_kept(ctx))
 
     def ur_mod(ctx):
         return [(None, f) for f in SCHED_FIELDS + RETENTION_FIELDS] + \
@@ -388,6 +400,9 @@ def register_update(reg):
         dom1 = lambda e: Or(*[And(g, x.dom(e)) for g, x in sv.alts_of(ch) if isinstance(x, sv.SDict)])
         return And(updates_same(ctx), sched_unchanged(ctx), done,
                    z3.ForAll([k], dom1(k) == Or(k == comp, dom0(k))))
+
+    global UR_PRE_FULL
+    UR_PRE_FULL = ur_pre
 
     reg.add(Contract(
         f"{S}.Composition._update_recursive", self_cls="Composition", props=["C01.2", "C02.2", "C04.1", "C20.3"],
@@ -524,5 +539,251 @@ def register_validation(reg):
         loops={1: dict(invariant=cdl_inv1, decreases=lambda ctx: DEPTH(strip_none(ctx.local("inp")).e),
                        locals={"inp": TRef(None), "chain": TList(TOpt(TRef(None)))}),
                2: dict(invariant=cdl_inv2, locals={"first_index": Int})},
+        ensures=lambda ctx, r: z3.BoolVal(True),
+    ))
+
+
+# =================================================================================================
+# Composition.run / _check_status / _finalize_components (C02.3, C03)
+# =================================================================================================
+STATUS = ["CREATED", "INITIALIZED", "CONNECTING", "CONNECTING_IDLE", "CONNECTED", "VALIDATED", "UPDATED", "FINISHED",
+          "FINALIZED", "FAILED"]
+
+
+def st(name):
+    return z3.IntVal(STATUS.index(name))
+
+
+def status_of(ctx, c):
+    return ctx.get(c, "$status").e
+
+
+def ctime(ctx, c):
+    return strip_none(ctx.get(c, "$ctime")).e
+
+
+def register_run(reg):
+    from .base import RETENTION_FIELDS
+
+    reg.field("_components", TList(TRef("IComponent")))
+    reg.field("_adapters", TSet(TRef("IAdapter")))
+    reg.field("_is_connected", Bool)
+    reg.field("_time_frame", TTup(TimeOpt, TimeOpt))
+    reg.field("_logger_name", Str)
+    reg.field("$finalized", TList(TRef(None)))   # ghost: objects whose finalize() was called, in order
+
+    # the order of ComponentStatus members in the source is what the enum model relies on
+    def status_enum_ok(ex):
+        ci = ex.repo.cls("ComponentStatus")
+        names = [n for n in ci.consts]
+        if names != STATUS:
+            from pyvc.path import BindingError
+            raise BindingError(f"ComponentStatus members changed: {names}")
+
+    reg.post_install = getattr(reg, "post_install", []) + [status_enum_ok]
+
+    reg.add(Contract("iface:*.logger", pure=True, verify=False, result_fn=lambda ctx: sv.SPy("logger")))
+
+    # ------------------------------------------------------------------ _check_status
+    def cs_bad(ctx):
+        lst = ctx.desired_list
+        s0 = status_of(ctx.old, ctx.comp.e)
+        j = z3.Int(sv.uid("cj"))
+        items = getattr(lst, "items", None)
+        if items is not None:
+            return Not(Or(*[s0 == x.e for x in items]))
+        return Not(z3.Exists([j], And(0 <= j, j < lst.n, lst.at(j).e == s0)))
+
+    reg.add(Contract(
+        f"{S}.Composition._check_status", self_cls="Composition", props=["C03.1"],
+        params={"comp": TRef("IComponent"), "desired_list": TList(Int)},
+        ensures=lambda ctx, r: Not(cs_bad(ctx)), modifies=lambda ctx: [], pure=True,
+        raises={"FinamStatusError": cs_bad}, must_raise={"FinamStatusError": cs_bad}, raise_frame_empty=True,
+    ))
+
+    # ------------------------------------------------------------------ finalize interfaces + _finalize_components
+    def fin_mod(ctx):
+        return [(None, f) for f in ["$status"] + RETENTION_FIELDS] + [(WORLD, "$finalized")]
+
+    def fin_logged(ctx, obj):
+        f0, f1 = ctx.old.get(WORLD, "$finalized"), ctx.get(WORLD, "$finalized")
+        i = z3.Int(sv.uid("fi"))
+        return And(f1.n == f0.n + 1, f1.at(f0.n).e == obj, z3.ForAll([i], Implies(And(0 <= i, i < f0.n), f1.at(i).e == f0.at(i).e)))
+
+    reg.add(Contract("iface:IComponent.finalize", params={}, note="method", verify=False, modifies=fin_mod,
+                     requires=lambda ctx: Or(*[status_of(ctx, ctx.self.e) == st(n) for n in ("VALIDATED", "UPDATED", "FINISHED")]),
+                     ensures=lambda ctx, r: And(fin_logged(ctx, ctx.self.e),
+                                                z3.ForAll([z3.Int("fo")], Implies(z3.Int("fo") != ctx.self.e,
+                                                                                   status_of(ctx, z3.Int("fo")) == status_of(ctx.old, z3.Int("fo")))))))
+    reg.add(Contract("iface:IAdapter.finalize", params={}, note="method", verify=False,
+                     modifies=lambda ctx: [(None, f) for f in RETENTION_FIELDS] + [(WORLD, "$finalized")],
+                     ensures=lambda ctx, r: fin_logged(ctx, ctx.self.e)))
+
+    def count_in(lst, upto, x, tag):
+        """x occurs in lst[:upto] exactly once, stated with a witness position"""
+        i, j = z3.Int(sv.uid(tag + "i")), z3.Int(sv.uid(tag + "j"))
+        return z3.Exists([i], And(0 <= i, i < upto, lst.at(i).e == x,
+                                  z3.ForAll([j], Implies(And(0 <= j, j < upto, lst.at(j).e == x), j == i))))
+
+    def fc_pre(ctx):
+        s = ctx.self
+        comps = ctx.get(s, "_components")
+        i, j = z3.Ints("fc_i fc_j")
+        distinct = z3.ForAll([i, j], Implies(And(0 <= i, i < j, j < comps.n), comps.at(i).e != comps.at(j).e))
+        a = z3.Int("fc_a")
+        disjoint = z3.ForAll([a, i], Implies(And(ctx.get(s, "_adapters").dom(a), 0 <= i, i < comps.n), comps.at(i).e != a))
+        okst = z3.ForAll([i], Implies(And(0 <= i, i < comps.n), comps.at(i).e > 0))
+        return And(distinct, disjoint, okst, ctx.get(WORLD, "$finalized").n == 0)
+
+    def fc_post(ctx, r):
+        s = ctx.self
+        comps = ctx.old.get(s, "_components")
+        ads = ctx.old.get(s, "_adapters")
+        fin = ctx.get(WORLD, "$finalized")
+        i = z3.Int("fcp_i")
+        a = z3.Int("fcp_a")
+        q = z3.Int("fcp_q")
+        each_comp = z3.ForAll([i], Implies(And(0 <= i, i < comps.n),
+                                           And(fin.at(i).e == comps.at(i).e, status_of(ctx, comps.at(i).e) == st("FINALIZED"))))
+        each_adapter_once = z3.ForAll([a], Implies(ads.dom(a), count_in_from(fin, comps.n, fin.n, a)))
+        nothing_else = z3.ForAll([q], Implies(And(comps.n <= q, q < fin.n), ads.dom(fin.at(q).e)))
+        return And(fin.n >= comps.n, each_comp, each_adapter_once, nothing_else)
+
+    def count_in_from(lst, lo, hi, x):
+        i, j = z3.Int(sv.uid("ci")), z3.Int(sv.uid("cj"))
+        return z3.Exists([i], And(lo <= i, i < hi, lst.at(i).e == x,
+                                  z3.ForAll([j], Implies(And(lo <= j, j < hi, lst.at(j).e == x), j == i))))
+
+    def fc_inv1(ctx):
+        s = ctx.self
+        comps = ctx.get(s, "_components")
+        fin = ctx.get(WORLD, "$finalized")
+        i = z3.Int("fci_i")
+        return And(fin.n == ctx.k,
+                   z3.ForAll([i], Implies(And(0 <= i, i < ctx.k),
+                                          And(fin.at(i).e == comps.at(i).e, status_of(ctx, comps.at(i).e) == st("FINALIZED")))),
+                   z3.ForAll([i], Implies(And(ctx.k <= i, i < comps.n), status_of(ctx, comps.at(i).e) == status_of(ctx.old, comps.at(i).e))))
+
+    def fc_inv2(ctx):
+        s = ctx.self
+        comps = ctx.get(s, "_components")
+        fin = ctx.get(WORLD, "$finalized")
+        i = z3.Int("fcj_i")
+        return And(fin.n == comps.n + ctx.k,
+                   z3.ForAll([i], Implies(And(0 <= i, i < comps.n),
+                                          And(fin.at(i).e == comps.at(i).e, status_of(ctx, comps.at(i).e) == st("FINALIZED")))),
+                   z3.ForAll([i], Implies(And(0 <= i, i < ctx.k), fin.at(comps.n + i).e == ctx.seq.at(i).e)))
+
+    global FC_PRE_FULL
+    FC_PRE_FULL = fc_pre
+
+    reg.add(Contract(
+        f"{S}.Composition._finalize_components", self_cls="Composition", props=["C03.1"], params={},
+        requires=fc_pre, ensures=fc_post, modifies=lambda ctx: fin_mod(ctx),
+        raises={"FinamStatusError": lambda ctx: z3.BoolVal(True)},
+        loops={1: dict(invariant=fc_inv1), 2: dict(invariant=fc_inv2)},
+    ))
+
+
+UR_PRE_FULL = FC_PRE_FULL = None
+
+
+def UR_PRE(ctx):
+    """the graph part of the precondition of _update_recursive (everything but the argument-specific clauses)"""
+    class _A:
+        pass
+    import copy
+    c2 = copy.copy(ctx)
+    c2.args = dict(ctx.args)
+    dummy = sv.SRef(z3.Int("ur_any_comp"), "IComponent")
+    c2.args.update({"comp": dummy, "chain": sv.NONE, "target_time": sv.STime(z3.Int("ur_any_t"))})
+    full = UR_PRE_FULL(c2)
+    from pyvc.expr import _flat_and
+    keep = [c for c in _flat_and(full) if "ur_any_comp" not in str(c) and "ur_any_t" not in str(c)]
+    return And(*keep)
+
+
+def FC_PRE(ctx):
+    return FC_PRE_FULL(ctx)
+
+
+def register_run2(reg):
+    from .base import RETENTION_FIELDS
+
+    reg.add(Contract(f"{S}.Composition._finalize_composition", self_cls="Composition", params={}, verify=False, pure=True,
+                     note="assumed: removes and closes the log handlers of the composition logger, no other effect"))
+
+    def tcs(ctx):
+        return ctx.local("time_components")
+
+    def running(ctx, c, end):
+        return And(status_of(ctx, c) != st("FINISHED"), ctime(ctx, c) < end)
+
+    def is_tc_everywhere(ctx, lst):
+        i = z3.Int(sv.uid("ti"))
+        return z3.ForAll([i], Implies(And(0 <= i, i < lst.n),
+                                      And(lst.at(i).e > 0, isa("ITimeComponent", lst.at(i).e), isa("IComponent", lst.at(i).e),
+                                          Not(is_none(ctx.get(lst.at(i).e, "$ctime"))), Not(is_none(ctx.get(lst.at(i).e, "$next_time"))))))
+
+    def run_pre(ctx):
+        s = ctx.self
+        comps = ctx.get(s, "_components")
+        i = z3.Int("rp_i")
+        c = z3.Int("rp_c")
+        end = strip_none(ctx.end_time).e
+        some_running = z3.Exists([i], And(0 <= i, i < comps.n, isa("ITimeComponent", comps.at(i).e), running(ctx, comps.at(i).e, end)))
+        tc_ok = z3.ForAll([c], Implies(isa("ITimeComponent", c), And(Not(is_none(ctx.get(c, "$ctime"))), Not(is_none(ctx.get(c, "$next_time"))))))
+        return And(ctx.get(s, "_is_connected").e, Not(is_none(ctx.end_time)), some_running, tc_ok,
+                   z3.ForAll([i], Implies(And(0 <= i, i < comps.n), And(comps.at(i).e > 0, isa("IComponent", comps.at(i).e)))),
+                   UR_PRE(ctx), FC_PRE(ctx))
+
+    def some_running_tc(ctx):
+        lst = tcs(ctx)
+        i = z3.Int("sr_i")
+        end = strip_none(ctx.end_time).e
+        return z3.Exists([i], And(0 <= i, i < lst.n, running(ctx, lst.at(i).e, end)))
+
+    def all_done(ctx):
+        lst = tcs(ctx)
+        i = z3.Int("ad_i")
+        end = strip_none(ctx.end_time).e
+        return z3.ForAll([i], Implies(And(0 <= i, i < lst.n), Not(running(ctx, lst.at(i).e, end))))
+
+    def graph_unchanged_pre(ctx):
+        return UR_PRE(ctx)
+
+    def while_inv(ctx):
+        return And(some_running_tc(ctx), is_tc_everywhere(ctx, tcs(ctx)), UR_PRE(ctx), FC_PRE(ctx), tcs(ctx).n >= 1)
+
+    def scan_inv(ctx):
+        lst = tcs(ctx)
+        i = z3.Int("sc_i")
+        end = strip_none(ctx.end_time).e
+        return And(Not(ctx.local("any_running").e),
+                   z3.ForAll([i], Implies(And(0 <= i, i < ctx.k), Not(running(ctx, lst.at(i).e, end)))),
+                   is_tc_everywhere(ctx, lst), UR_PRE(ctx), FC_PRE(ctx), lst.n >= 1)
+
+    def least_advanced(ctx, argmap):
+        """C02.3: the component handed to the recursive update has the smallest time of all time components;
+        C03.3: and an update is still due (some time component has not reached the end time)"""
+        lst = tcs(ctx)
+        i = z3.Int("la_i")
+        c = argmap["comp"].e
+        return And(z3.ForAll([i], Implies(And(0 <= i, i < lst.n), ctime(ctx, c) <= ctime(ctx, lst.at(i).e))),
+                   z3.Exists([i], And(0 <= i, i < lst.n, lst.at(i).e == c)),
+                   some_running_tc(ctx))
+
+    reg.add(Contract(
+        f"{S}.Composition.run", self_cls="Composition", props=["C02.3", "C03.3", "C03.1"],
+        params={"start_time": TimeOpt, "end_time": TimeOpt},
+        requires=run_pre, modifies=lambda ctx: [(None, f) for f in SCHED_FIELDS + RETENTION_FIELDS] +
+        [(WORLD, "$updates"), (WORLD, "$pull_log"), (WORLD, "$notify_log"), (WORLD, "$finalized"), (ctx.self, "_time_frame")],
+        raises={"FinamCircularCouplingError": lambda ctx: z3.BoolVal(True), "FinamTimeError": lambda ctx: z3.BoolVal(True),
+                "FinamStatusError": lambda ctx: z3.BoolVal(True)},
+        call_checks={"_update_recursive": least_advanced},
+        loops={1: dict(invariant=while_inv, at_exit=all_done,
+                       locals={"sort_components": TList(TRef("ITimeComponent")), "to_update": TRef("ITimeComponent"),
+                               "updated": TOpt(TRef("IComponent")), "any_running": Bool, "comp": TRef("ITimeComponent")}),
+               2: dict(invariant=scan_inv, locals={"any_running": Bool, "comp": TRef("ITimeComponent")})},
         ensures=lambda ctx, r: z3.BoolVal(True),
     ))
